@@ -27,7 +27,12 @@ SPEC = dict(
              '(init inline vs reference: the statements computing bits_left / refs_left / body_fits and the test `bits_left >= 0 and body_fits` of '
              'fix F17; body inline vs reference) are additionally re-translated from tlb/transaction.py on every run (Generated/MsgLayout.lean) and '
              'proved, for ALL integer budgets and sizes, to be the model\'s conditions (c15_src_layout_tests); initB / bodyB of the hand model are '
-             'proved to branch by exactly these regenerated decisions (c15_src_model_layout).',
+             'proved to branch by exactly these regenerated decisions (c15_src_model_layout). '
+             'The WHOLE deserialize methods of MessageAny, CommonMsgInfo, InternalMsgInfo, ExternalMsgInfo, ExternalOutMsgInfo, StateInit, TickTock, '
+             'CurrencyCollection, ExtraCurrencyCollection are regenerated from transaction.py / account.py / block.py on every run (Generated/MsgSrc.lean, '
+             'translator pytlb.py) and proved for ALL slices to BE the hand model\'s parsers (c15_src_deserialize), so c15_own_parser / c15_round_trip speak '
+             'about the regenerated parser (c15_src_roundtrip_partial); the serialize methods are regenerated and validated too, proved equal for the '
+             'leaf classes (c15_src_serialize_partial); the composite serialisers remain hand model + correspondence + the layout decision lines.',
         level_note='theorems are about the hand model; model = pytoniq-core only on the generated inputs (sampled). Dictionaries '
                    '(extra currencies, library, plugins, old_queries) are optional root references (dictionary contents are C09/C10). '
                    'bits256 fields must be 32 bytes: the library does not check the length (a shorter key serialises to a cell that is '
